@@ -6,15 +6,15 @@
 #include <unistd.h>
 #include <math.h>
 
-FILE *tr;
+__thread FILE *tr;
 mpz_t Zp[NZ]; mpq_t Qp[NQ]; mpf_t Fp[NF]; gmp_randstate_t Rp[NR];
 int zlive[NZ], qlive[NQ], flive[NF], rlive[NR];
 long n_events, n_calls;
 ret_t last_ret;
 sigjmp_buf rec_jmp; volatile int rec_jmp_armed;
 static int alloc_log = 1;
-static FILE *tr_real;   /* the real trace while an fn event is being assembled in memory */
-static char last_begin[512];
+static __thread FILE *tr_real;   /* the real trace while an fn event is being assembled in memory */
+static __thread char last_begin[512];
 
 /* ------------------------------------------------------------------ */
 /* recording allocator: ids, canaries, always-moving realloc, poison    */
@@ -78,7 +78,7 @@ static void *ra_realloc(void *p, size_t old, size_t new) {
 static long blk_id_of(void *p) { blk *b = blk_find(p, 0); return b ? b->id : -1; }
 /* check every live block's canaries (called at each call end) */
 static void canary_sweep(void) {
-  int h; blk *b;
+  int h; blk *b; if (rec_threaded) return;
   for (h = 0; h < HB; h++) for (b = htab[h]; b; b = b->next) if (!canary_ok(b->p, b->sz)) guard("canary damaged (seen at call end)", b->id);
 }
 long rec_live_blocks(void) { return live_blocks; }
@@ -166,12 +166,13 @@ void j_double(double d) {
 }
 
 /* ------------------------------------------------------------------ */
-static int fn_first;
-static int fn_gw_done;
+static __thread int fn_first;
+static __thread int fn_gw_done;
+int rec_threaded;      /* threaded drivers: no global-write snapshots, no allocator table sweeps */
 void gw_snapshot(void); void gw_diff_emit(void);
 /* an fn event is assembled in memory and written at fn_end, so that allocator events raised by the
    call itself (temporaries) are not interleaved with the line */
-static char *fn_buf; static size_t fn_len;
+static __thread char *fn_buf; static __thread size_t fn_len;
 void fn_begin(const char *f) {
   tr_real = tr; fn_buf = NULL; fn_len = 0; tr = open_memstream(&fn_buf, &fn_len); fn_gw_done = 0;
   fprintf(tr, "{\"e\":\"fn\",\"f\":\"%s\",\"i\":{", f); fn_first = 1; snprintf(last_begin, sizeof last_begin, "fn %s", f); }
@@ -182,11 +183,12 @@ void fn_in_u64(const char *k, uint64_t v) { fn_key(k); j_hex_u64(v); }
 void fn_in_str(const char *k, const char *s) { fn_key(k); j_str(s); }
 void fn_in_raw(const char *k, const char *json) { fn_key(k); fputs(json, tr); }
 /* inputs done: from here until fn_out_* the real trace receives the allocator events of the call */
-static FILE *fn_mem;
+static __thread FILE *fn_mem;
 void fn_mid(void) { fputs("},\"o\":{", tr); fn_first = 1; fn_mem = tr; tr = tr_real; gw_snapshot(); }
 static void fn_resume(void) { if (tr == tr_real && fn_mem) { if (!fn_gw_done) { gw_diff_emit(); fn_gw_done = 1; } tr = fn_mem; } }
 void fn_out_limbs(const char *k, const mp_limb_t *p, mp_size_t n) { fn_resume(); fn_key(k); j_hex_limbs(p, n); }
 void fn_out_int(const char *k, long v) { fn_resume(); fn_key(k); fprintf(tr, "%ld", v); }
+void fn_out_raw(const char *k, const char *json) { fn_resume(); fn_key(k); fputs(json, tr); }
 void fn_out_u64(const char *k, uint64_t v) { fn_resume(); fn_key(k); j_hex_u64(v); }
 void fn_out_str(const char *k, const char *s) { fn_resume(); fn_key(k); j_str(s); }
 void fn_out_strn(const char *k, const char *s, size_t n) { fn_resume(); fn_key(k); j_strn(s, n); }
@@ -366,9 +368,9 @@ void gw_load(const char *exe) {
     gwc = realloc(gwc, (ngw + 1) * sizeof *gwc); gwc[ngw].addr = (unsigned char *)a; gwc[ngw].size = sz; snprintf(gwc[ngw].name, sizeof gwc[ngw].name, "%s", nm); gwc[ngw].snap = malloc(sz); ngw++; }
   fclose(f);
 }
-void gw_snapshot(void) { int i; for (i = 0; i < ngw; i++) memcpy(gwc[i].snap, gwc[i].addr, gwc[i].size); }
+void gw_snapshot(void) { int i; if (rec_threaded) return; for (i = 0; i < ngw; i++) memcpy(gwc[i].snap, gwc[i].addr, gwc[i].size); }
 void gw_diff_emit(void) {
-  int i; for (i = 0; i < ngw; i++) if (memcmp(gwc[i].snap, gwc[i].addr, gwc[i].size)) {
+  int i; if (rec_threaded) return; for (i = 0; i < ngw; i++) if (memcmp(gwc[i].snap, gwc[i].addr, gwc[i].size)) {
     FILE *o = (tr_real && tr != tr_real) ? tr_real : tr;
     fprintf(o, "{\"e\":\"gw\",\"sym\":\"%s\"}\n", gwc[i].name); n_events++; }
 }
